@@ -120,6 +120,13 @@ fn apply(img: &mut Vec<u8>, e: &Entry) {
 pub struct CrashCase {
     pub history: Case,
     pub subset_seed: u64,
+    /// observe only every `thin`-th height/hash (1 = all); used by the large-batch sub-check
+    #[serde(default = "one")]
+    pub thin: u8,
+}
+
+fn one() -> u8 {
+    1
 }
 
 async fn reopen(img: Vec<u8>, heights: &[u64], hashes: &[celestia_types::hash::Hash]) -> Result<Snapshot, String> {
@@ -135,8 +142,13 @@ async fn reopen(img: Vec<u8>, heights: &[u64], hashes: &[celestia_types::hash::H
 }
 
 async fn run_case(case: &CrashCase, obs: &mut Obs<'_>) -> Result<(), Failure> {
-    let u = c19::build_universe(&case.history);
+    let mut u = c19::build_universe(&case.history);
     let n = u.honest.headers.len();
+    if case.thin > 1 {
+        let t = case.thin as usize;
+        u.heights = u.heights.iter().copied().enumerate().filter(|(i, h)| i % t == 0 || *h <= 2).map(|(_, h)| h).collect();
+        u.hashes = u.hashes.iter().cloned().enumerate().filter(|(i, _)| i % t == 0).map(|(_, h)| h).collect();
+    }
     let shared = Arc::new(Mutex::new(Shared::default()));
     let db = redb::Database::builder()
         .create_with_backend(LogBackend(shared.clone()))
@@ -198,7 +210,7 @@ async fn run_case(case: &CrashCase, obs: &mut Obs<'_>) -> Result<(), Failure> {
     let mut tail: Vec<usize> = Vec::new(); // indices of write/set_len entries since then
     let mut returned = 0usize; // ops that had returned
     let mut started = 0usize; // ops that had been started
-    let extra = if obs.tier == Tier::Quick { 2 } else { 8 };
+    let extra = if case.thin > 1 { 1 } else if obs.tier == Tier::Quick { 2 } else { 8 };
     for p in 0..=log.len() {
         // crash just before entry p
         if p < init_len {
@@ -317,9 +329,44 @@ pub fn run(ctx: &mut Ctx) {
         cases,
         move || (c19::case_strategy(max_len, max_ops), any::<u64>()).prop_map(move |(mut history, subset_seed)| {
             history.ops.truncate(max_ops);
-            CrashCase { history, subset_seed }
+            CrashCase { history, subset_seed, thin: 1 }
         }),
         |case, obs| {
+            let rt = tokio::runtime::Builder::new_current_thread().enable_all().build().unwrap();
+            rt.block_on(run_case(case, obs))
+        },
+    );
+    // batches larger than any plausible per-transaction chunk (the syncer inserts up to 512 headers at once)
+    ctx.essential(&["large-batch-insert"]);
+    let (lo, hi, cases) = match ctx.tier {
+        Tier::Quick => (150usize, 230usize, 16),
+        Tier::Thorough => (200, 600, 96),
+    };
+    ctx.proptest(
+        "crash-points-large-batches",
+        "same enumeration of every crash point, on histories of 3..6 ops whose inserts carry 65..200 headers (chains of 150..600 headers); the observable state is sampled on every 4th height/hash; subsets: none, all, one generated subset. Non-trivial as above",
+        cases,
+        move || {
+            let big_insert = (
+                prop_oneof![3 => Just(c19::Place::AboveHead), 1 => (1u8..4).prop_map(|gap| c19::Place::AboveGap { gap }), 1 => any::<u16>().prop_map(|g| c19::Place::GapFromAbove { g }), 1 => any::<u16>().prop_map(|g| c19::Place::GapFromBelow { g })],
+                65u8..=200,
+            )
+                .prop_map(|(place, len)| Op::Insert { place, len, src: c19::Source::Honest, mal: c19::Malform::None });
+            let op = prop_oneof![4 => big_insert, 1 => c19::op_strategy()];
+            (c19::case_strategy(hi, 10), prop::collection::vec(op, 3..=6), any::<u64>()).prop_map(move |(mut history, ops, subset_seed)| {
+                // make the chain long enough for the batches
+                while history.chain.blocks.len() < lo {
+                    let b = history.chain.blocks[history.chain.blocks.len() % 7].clone();
+                    history.chain.blocks.push(lv_gen::chain::BlockSpec { next_set: None, ..b });
+                }
+                history.ops = ops;
+                CrashCase { history, subset_seed, thin: 4 }
+            })
+        },
+        |case, obs| {
+            if case.history.ops.iter().any(|o| matches!(o, Op::Insert { len, .. } if *len >= 65)) {
+                obs.label("large-batch-insert");
+            }
             let rt = tokio::runtime::Builder::new_current_thread().enable_all().build().unwrap();
             rt.block_on(run_case(case, obs))
         },
